@@ -46,7 +46,7 @@ def make_model(rng, family):
        'contact3' : the same with condim 3 (pyramidal or elliptic)
        'spheres'  : free spheres resting on each other and on the plane (sphere-sphere, plane-sphere)
        'capsules' : sphere-capsule and capsule-capsule pairs (MJX kernels regularised with 1e-6: looser tolerance)"""
-    M = {"family": family, "bodies": [], "wgeoms": [], "acts": []}
+    M = {"family": family, "bodies": [], "wgeoms": [], "acts": [], "wsites": [], "tendons": []}
     opt = {"timestep": rng.choice([0.002, 0.004, 0.005]), "gravity": [0.0, 0.0, -9.81], "cone": 0, "integrator": 0, "solver": 2,
            "iterations": 100, "impratio": 1.0, "tolerance": 1e-10, "disableflags": 0}
     M["opt"] = opt
@@ -54,7 +54,7 @@ def make_model(rng, family):
     scalar = []
 
     def add_body(parent, pos, quat=(1, 0, 0, 0)):
-        M["bodies"].append({"parent": parent, "pos": list(pos), "quat": list(quat), "joints": [], "geoms": []})
+        M["bodies"].append({"parent": parent, "pos": list(pos), "quat": list(quat), "joints": [], "geoms": [], "sites": []})
         return len(M["bodies"]) - 1
 
     def add_joint(b, j):
@@ -97,6 +97,55 @@ def make_model(rng, family):
         for jn in scalar:
             if rng.random() < 0.6:
                 M["acts"].append({"joint": jn, "kind": rng.choice([0, 0, 1]), "gear": rng.uniform(0.5, 3.0), "kp": rng.uniform(1, 20)})
+        M["collide"] = False
+        return M
+
+    if family == "tendons":
+        # fixed and spatial tendons with stiffness, damping and a genuine dead-band spring range lower < upper; the states put the
+        # tendon lengths below, inside and above the band
+        opt["integrator"] = rng.choice([0, 0, 3])
+        nsite = [0]
+
+        def add_site(b, pos):
+            nm = "s%d" % nsite[0]
+            nsite[0] += 1
+            (M["wsites"] if b is None else M["bodies"][b]["sites"]).append({"name": nm, "pos": list(pos)})
+            return nsite[0] - 1
+        presets = {}
+        # (1) slide joint with a fixed tendon: length = coef * q
+        b0 = add_body(-1, [0, 0, 1])
+        add_joint(b0, joint(2, axis=[1, 0, 0], damping=rng.uniform(0, 0.5)))
+        M["bodies"][b0]["geoms"].append(geom(2, [0.05]))
+        coef = rng.choice([1.0, 2.0, -1.5])
+        lo, hi = sorted([rng.uniform(0.1, 0.4), rng.uniform(0.45, 0.9)])
+        M["tendons"].append({"stiffness": rng.uniform(5, 60), "damping": rng.uniform(0, 1.0), "springlength": [lo, hi], "wraps": [(0, 0, coef)]})
+        presets[0] = [(hi + rng.uniform(0.05, 0.3)) / coef, (lo - rng.uniform(0.05, 0.3)) / coef, (0.5 * (lo + hi)) / coef]
+        # (2) two hinges in a chain with a fixed tendon over both
+        b1 = add_body(-1, [2, 0, 1])
+        add_joint(b1, joint(3, axis=[0, 1, 0], damping=0.1))
+        M["bodies"][b1]["geoms"].append(geom(3, [0.03, 0.15], pos=[0.15, 0, 0], quat=unit([1, 0, 1, 0])))
+        b2 = add_body(b1, [0.3, 0, 0])
+        add_joint(b2, joint(3, axis=[0, 1, 0], stiffness=rng.choice([0.0, 3.0])))
+        M["bodies"][b2]["geoms"].append(geom(3, [0.03, 0.15], pos=[0.15, 0, 0], quat=unit([1, 0, 1, 0])))
+        c1, c2 = rng.uniform(0.5, 2), rng.uniform(-2, -0.5)
+        lo2, hi2 = -rng.uniform(0.1, 0.4), rng.uniform(0.1, 0.4)
+        M["tendons"].append({"stiffness": rng.uniform(5, 40), "damping": rng.uniform(0, 0.5), "springlength": [lo2, hi2], "wraps": [(0, 1, c1), (0, 2, c2)]})
+        # (3) spatial tendon between a world site and a site on a pendulum tip; band inside the attainable range of lengths
+        b3 = add_body(-1, [4, 0, 1])
+        add_joint(b3, joint(3, axis=[0, 1, 0], damping=0.05))
+        M["bodies"][b3]["geoms"].append(geom(3, [0.03, 0.2], pos=[0.2, 0, 0], quat=unit([1, 0, 1, 0])))
+        sa = add_site(None, [4.3, 0.05, 1.2])
+        sb = add_site(b3, [0.4, 0, 0])
+        lo3 = rng.uniform(0.3, 0.4)
+        M["tendons"].append({"stiffness": rng.uniform(20, 80), "damping": rng.uniform(0, 0.5), "springlength": [lo3, lo3 + rng.uniform(0.05, 0.15)],
+                             "wraps": [(1, sa, 0.0), (1, sb, 0.0)]})
+        if rng.random() < 0.5:     # a single-valued springlength too (the common case)
+            sc = add_site(b2, [0.3, 0, 0.02])
+            sd = add_site(None, [2.2, 0.1, 1.6])
+            v = rng.uniform(0.3, 0.7)
+            M["tendons"].append({"stiffness": rng.uniform(5, 30), "damping": 0.0, "springlength": [v, v], "wraps": [(1, sd, 0.0), (1, sc, 0.0)]})
+        M["acts"].append({"joint": 0, "kind": 0, "gear": 1.0, "kp": 0.0})
+        M["presets"] = presets
         M["collide"] = False
         return M
 
@@ -198,6 +247,14 @@ def random_state(M, rng, k):
         else:
             q[i] += rng.uniform(-amp, amp)
             i += 1
+    if M.get("presets"):
+        i = 0
+        for jn, t in enumerate(types):
+            if jn in M["presets"]:
+                q[i] = M["presets"][jn][k % len(M["presets"][jn])]
+            elif t >= 2 and M["family"] == "tendons":
+                q[i] = rng.uniform(-2.5, 2.5)
+            i += {0: 7, 1: 4, 2: 1, 3: 1}[t]
     vs = 0.0 if k == 0 else (0.05 if M["collide"] else 1.0)
     v = [rng.uniform(-vs, vs) for _ in range(nv)]
     u = [rng.uniform(-1, 1) for _ in range(nu)]
@@ -229,6 +286,8 @@ def to_xml(M):
            '<worldbody>']
     for g in M["wgeoms"]:
         out.append(geom_xml(g))
+    for st in M.get("wsites", []):
+        out.append('<site name="%s" pos="%s"/>' % (st["name"], vec(st["pos"])))
     children = {}
     for i, b in enumerate(M["bodies"]):
         children.setdefault(b["parent"], []).append(i)
@@ -244,6 +303,8 @@ def to_xml(M):
             jn[0] += 1
         for g in b["geoms"]:
             out.append(geom_xml(g))
+        for st in b.get("sites", []):
+            out.append('<site name="%s" pos="%s"/>' % (st["name"], vec(st["pos"])))
         for c in children.get(i, []):
             emit(c)
         out.append('</body>')
@@ -253,6 +314,15 @@ def to_xml(M):
     for i in children.get(-1, []):
         emit(i)
     out.append('</worldbody>')
+    if M.get("tendons"):
+        out.append('<tendon>')
+        for k, t in enumerate(M["tendons"]):
+            tag = "fixed" if t["wraps"][0][0] == 0 else "spatial"
+            out.append('<%s name="t%d" stiffness="%s" damping="%s" springlength="%s">' % (tag, k, r(t["stiffness"]), r(t["damping"]), vec(t["springlength"])))
+            for kind, ref, coef in t["wraps"]:
+                out.append('<joint joint="j%d" coef="%s"/>' % (ref, r(coef)) if kind == 0 else '<site site="s%d"/>' % ref)
+            out.append('</%s>' % tag)
+        out.append('</tendon>')
     if M["acts"]:
         out.append('<actuator>')
         for a in M["acts"]:
@@ -276,6 +346,8 @@ def to_lines(M, states):
                                                      r(o["impratio"]), r(o["tolerance"]), o["disableflags"])]
     for g in M["wgeoms"]:
         L.append(geom_line("wgeom", g))
+    for st in M.get("wsites", []):
+        L.append("wsite %s %s" % (st["name"], vec(st["pos"])))
     for b in M["bodies"]:
         L.append("body %d %s %s" % (b["parent"], vec(b["pos"]), vec(b["quat"])))
         for j in b["joints"]:
@@ -283,6 +355,11 @@ def to_lines(M, states):
                                                           r(j["armature"]), int(j["limited"]), vec(j["range"]), r(j["springref"])))
         for g in b["geoms"]:
             L.append(geom_line("geom", g))
+        for st in b.get("sites", []):
+            L.append("site %s %s" % (st["name"], vec(st["pos"])))
+    for t in M.get("tendons", []):
+        L.append("tendon %s %s %s %d %s" % (r(t["stiffness"]), r(t["damping"]), vec(t["springlength"]), len(t["wraps"]),
+                                          " ".join("%d %d %s" % (kind, ref, r(coef)) for kind, ref, coef in t["wraps"])))
     for a in M["acts"]:
         L.append("act %d %d %s %s" % (a["joint"], a["kind"], r(a["gear"]), r(a["kp"])))
     L.append("END")
@@ -328,4 +405,8 @@ def reorder_depth_first(M):
     M["bodies"] = bodies
     for a in M["acts"]:
         a["joint"] = jnew[a["joint"]]
+    for t in M.get("tendons", []):
+        t["wraps"] = [(kind, jnew[ref] if kind == 0 else ref, coef) for kind, ref, coef in t["wraps"]]
+    if M.get("presets"):
+        M["presets"] = {jnew[j]: v for j, v in M["presets"].items()}
     return M
